@@ -1313,7 +1313,62 @@ fn colliding_key(k: &MKey, salt: u8) -> MKey {
     f
 }
 
+/// hand-made minimal witnesses of the four known findings (indices 0..4 of every run)
+fn fixed_hist(which: u64) -> Hist {
+    let lab = |s: &str| -> MName { s.split('.').filter(|x| !x.is_empty()).map(|x| x.as_bytes().to_vec()).collect() };
+    let zone = lab("example");
+    let owner = lab("ab.c.example");
+    let km = &pool()[0];
+    let key = MKey { name: zone.clone(), ttl: 3600, flags: 257, alg: km.alg, pk: km.pk.clone() };
+    let recs = vec![MRec { name: owner.clone(), class: 1, ttl: 300, data: MData::A([192, 0, 2, 1]) }];
+    let mut sig = MSig {
+        name: owner.clone(), class: 1, ttl: 300, tc: 1, alg: km.alg, labels: 3, ottl: 3600,
+        exp: 1_700_001_000, inc: 1_700_000_000, tag: key.tag(), signer: zone.clone(), sig: SigV::Corrupt { bytes: vec![] },
+    };
+    resign(&mut sig, 0, &owner, &recs);
+    let b = Base { zone, owner, recs, sig, keys: vec![key], key: 0, now: 1_700_000_010 };
+    let s0 = base_step(&b);
+    let mut s1 = s0.clone();
+    let kind;
+    match which {
+        0 => {
+            // F12: a.bc.example. was never signed
+            let o2 = lab("a.bc.example");
+            for a in s1.answers.iter_mut() { match a { MAns::R(r) => r.name = o2.clone(), MAns::S(s) => s.name = o2.clone() } }
+            s1.qname = o2;
+            s1.note = "same RDATA and RRSIG under owner a.bc.example.".into();
+            kind = "fixed:F12";
+        }
+        1 => {
+            // F5a: clock past the expiration, entry (TTL 300) still alive
+            s1.now = 1_700_001_001;
+            s1.note = "clock = expiration + 1".into();
+            kind = "fixed:F5a";
+        }
+        2 => {
+            // F5b: 10 s before the expiration the TTL of the first validation (300) comes back
+            s1.now = 1_700_000_990;
+            s1.note = "clock = expiration - 10".into();
+            kind = "fixed:F5b";
+        }
+        _ => {
+            // F13: a stray RRSIG covering DNSKEY
+            let mut s2 = b.sig.clone();
+            s2.tc = 48;
+            s1.answers.push(MAns::S(s2));
+            s1.note = "plus an RRSIG with type covered DNSKEY".into();
+            kind = "fixed:F13";
+        }
+    }
+    let steps = vec![s0, s1];
+    let anchors = anchors_of(&steps, &[]);
+    Hist { anchors, steps, kind: kind.into() }
+}
+
 fn gen_hist(seed: u64, index: u64, thorough: bool) -> Hist {
+    if index < 4 {
+        return fixed_hist(index);
+    }
     let mut rng = Rng::for_case(seed, index);
     let fam = rng.below(100);
     let mut untrusted: Vec<Vec<u8>> = vec![];
